@@ -19,10 +19,10 @@ pub fn prop() -> Prop {
             Sub::enumerate("ellipses", ellipses),
             Sub::enumerate("rrect_equal", rrect_equal),
             Sub::enumerate("triangles_grid", triangles_grid),
-            Sub::tape("rrect_random", 24, 20_000, 600_000, rrect_random),
-            Sub::tape("round_random", 8, 4_000, 100_000, round_random),
-            Sub::tape("triangles_random", 12, 20_000, 1_000_000, triangles_random),
-            Sub::tape("sectors", 10, 12_000, 400_000, sectors).with_fp(),
+            Sub::tape("rrect_random", 24, 100_000, 1_500_000, rrect_random),
+            Sub::tape("round_random", 8, 20_000, 300_000, round_random),
+            Sub::tape("triangles_random", 12, 100_000, 1_500_000, triangles_random),
+            Sub::tape("sectors", 10, 60_000, 900_000, sectors).with_fp(),
         ],
     }
 }
